@@ -19,6 +19,7 @@ inductive CallConv where
   deriving DecidableEq, Repr
 
 def linkage (f : Flags) : Linkage := if f.pub || f.main || f.forward then .external else .privateL
-def callconv (f : Flags) : CallConv := if f.ext then .c else .fast
+/-- `extern` functions and the entry point (both are called from outside) use the C convention -/
+def callconv (f : Flags) : CallConv := if f.ext || f.main then .c else .fast
 
 end Gen
